@@ -182,6 +182,11 @@ class RoleManager(RM):
             if r.name == user.name or self._matching_fn(user.name, r.name, MatchOrder.PATTERN_STR):
                 if role in r.roles and not self._linked(r.name, role.name):
                     r.remove_role(role)
+                # a name matching the role pattern that was first seen after the link copied it from the pattern's users
+                for other in list(r.roles):
+                    if other.name != role.name and self._matching_fn(role.name, other.name, MatchOrder.PATTERN_STR):
+                        if not self._linked(r.name, other.name):
+                            r.remove_role(other)
             if r.name != role.name and self._matching_fn(role.name, r.name, MatchOrder.PATTERN_STR):
                 if r in role.roles and not self._linked(role.name, r.name):
                     role.remove_role(r)
@@ -192,6 +197,8 @@ class RoleManager(RM):
             if link.role == name2 and (link.user == name1 or self._matching_fn(name1, link.user)):
                 return True
             if link.role == name1 and name1 != name2 and self._matching_fn(name2, link.role):
+                return True
+            if (link.user == name1 or self._matching_fn(name1, link.user)) and self._matching_fn(name2, link.role):
                 return True
         return False
 
